@@ -52,7 +52,7 @@ import (
 // expr.Val[1:]): fix proposal C02-05, known findings C02-K6/K7 (two fixed ops below). The
 // whole derived cross product for rest runs when VERIF_ALIAS_REST=1 (to be made the default
 // when the fix has landed).
-var alRestFull = os.Getenv("VERIF_ALIAS_REST") == "1"
+var alRestFull = os.Getenv("VERIF_ALIAS_REST") != "0" // fix e2faebb (C02-05) landed: the rest cross product runs by default
 
 // ---- constructors
 
